@@ -97,6 +97,22 @@ F.update({
     "DF240": ("UINT", 20, 1), "DF241": ("UINT", 17, 1), "DF242": ("INT", 12, None), "DF243": ("INT", 12, None),
     "DF244": ("INT", 14, None), "DF245": ("INT", 14, None),
 })
+F.update({
+    # GLONASS ephemeris 1020 (14 sign-magnitude fields)
+    "DF104": ("BIT", 1, 0), "DF105": ("BIT", 1, 0), "DF106": ("BIT", 2, 0), "DF107": ("BIT", 12, 0),
+    "DF108": ("BIT", 1, 0), "DF109": ("BIT", 1, 0), "DF110": ("UINT", 7, None),
+    "DF111": ("SNT", 24, P2(-20)), "DF112": ("SNT", 27, P2(-11)), "DF113": ("SNT", 5, P2(-30)),
+    "DF114": ("SNT", 24, P2(-20)), "DF115": ("SNT", 27, P2(-11)), "DF116": ("SNT", 5, P2(-30)),
+    "DF117": ("SNT", 24, P2(-20)), "DF118": ("SNT", 27, P2(-11)), "DF119": ("SNT", 5, P2(-30)),
+    "DF120": ("BIT", 1, 0), "DF121": ("SNT", 11, None), "DF122": ("BIT", 2, 0), "DF123": ("BIT", 1, 0),
+    "DF124": ("SNT", 22, P2(-30)), "DF125": ("SNT", 5, P2(-30)), "DF126": ("UINT", 5, 1), "DF127": ("BIT", 1, 0),
+    "DF128": ("UINT", 4, None), "DF129": ("UINT", 11, 1), "DF130": ("BIT", 2, 0), "DF131": ("BIT", 1, 0),
+    "DF132": ("UINT", 11, 1), "DF133": ("SNT", 32, P2(-31)), "DF134": ("UINT", 5, 1), "DF135": ("SNT", 22, P2(-30)),
+    "DF136": ("BIT", 1, 0),
+    # 1014 network auxiliary station data, 1032 physical reference station position
+    "DF058": ("UINT", 5, 1), "DF062": ("INT", 20, None), "DF063": ("INT", 21, None), "DF064": ("INT", 23, None),
+    "DF226": ("UINT", 12, 1),
+})
 F = {k: (v[0], v[1], v[2], "") for k, v in F.items()}
 
 
@@ -178,6 +194,15 @@ LAYOUT.update({
              "g": ("DF006", d("DF009", "DF071", "DF242", "DF243", "DF244", "DF245"))},
     "1035": {**d("DF002", "DF003", "DF241", "DF035"),
              "g": ("DF035", d("DF038", "DF392", "DF242", "DF243", "DF244", "DF245"))},
+})
+
+LAYOUT.update({
+    "1014": d("DF002", "DF059", "DF072", "DF058", "DF060", "DF061", "DF062", "DF063", "DF064"),
+    "1020": d("DF002", "DF038", "DF040", "DF104", "DF105", "DF106", "DF107", "DF108", "DF109", "DF110", "DF111",
+              "DF112", "DF113", "DF114", "DF115", "DF116", "DF117", "DF118", "DF119", "DF120", "DF121", "DF122",
+              "DF123", "DF124", "DF125", "DF126", "DF127", "DF128", "DF129", "DF130", "DF131", "DF132", "DF133",
+              "DF134", "DF135", "DF136", "DF001_7"),
+    "1032": d("DF002", "DF003", "DF226", "DF021", "DF025", "DF026", "DF027"),
 })
 
 # ---- MSM: 7 constellations x 7 levels
